@@ -156,6 +156,12 @@ def gen_world(rng, i, tier):
             how, c = corrupt(rng, c)
             faults.append(how)
         files.append({"kind": kind, "faults": faults, "c": c})
+    if rng.chance(0.15):
+        # "any delimiter set, any comment set": white space, structural characters, repeated members, hundreds of bytes
+        if rng.chance(0.6):
+            C = rng.pick(["\t", " ", "#\t", " ;", "\n", "=", "[", "]", "\"", "#" * 300, "\\", "k"])
+        if rng.chance(0.6):
+            D = rng.pick(["=:" * 200, "\n", "#", "[]", "\"", "\\", "=" * 257, " \t\n\v\f\r=", "k"])
     w = {"kind": "storage", "D": D, "C": C, "opt": opt, "files": files, "cfg": gen.io_cfg(rng), "small_stack": rng.chance(0.25),
          "tear": [rng.pick(["truncate", "zero", "bitflip", "dup"]), rng.randrange(4096), rng.randrange(1, 64)]}
     return w
